@@ -31,6 +31,7 @@ OPTION_CHOICES = [
     ('hydraulic.headerror', [0.0, 0.01, 0.0012345]),
     ('hydraulic.flowchange', [0.0, 0.001, 1.23456e-5]),
     ('quality.parameter', ['NONE', 'CHEMICAL', 'AGE']),
+    ('quality.inpfile_units', ['mg/L', 'ug/L']),
     ('quality.diffusivity', [1.0, 1.2, 1.0123456]),
     ('quality.tolerance', [0.01, 0.02, 0.0123456]),
     ('reaction.bulk_order', [1.0, 2.0]),
